@@ -4,5 +4,6 @@ INIT Init
 NEXT Next
 INVARIANT TableOk
 INVARIANT OperandInv
+INVARIANT AliasInv
 INVARIANT FieldInv
 CHECK_DEADLOCK FALSE
